@@ -53,6 +53,7 @@ func c04(r *core.Run) {
 	r.Rule("C04/R3", "each recipient gets its own percentage: POL amount ⊵ Param(PolRatio) ∧ ⋫ Param(ReferralCommission); referrer and fee-collector amounts ⊵ Param(ReferralCommission) ∧ ⋫ Param(PolRatio)")
 	r.Rule("C04/R4", "closed recipient set: every bank call of the unit is one of {debit from signer, new gauge, POL account, referrer named by msg.Referral, fee collector}")
 	r.Rule("C04/R5", "failure debits nothing: every bank error propagates to a failing return")
+	r.Rule("C04/R6", "referral gate: the referrer payout is on committing paths only behind a successful resolution of msg.Referral and behind Eq(resolved referral, signer)=false (directly or through a boolean flag set only there)")
 	hs, err := p.Handlers()
 	if err != nil {
 		r.Undecided("C04/R1", "handlers", "", err.Error())
@@ -195,5 +196,62 @@ func c04(r *core.Run) {
 			}
 		}
 		errorsPropagate(r, "C04/R5", h)
+		// ---- R6 referral gate (plan purchase only)
+		for _, s := range sites {
+			if s.class != "referrer" {
+				continue
+			}
+			fn := s.bo.Fn
+			eff := &core.Effect{Instr: s.bo.Instr}
+			isReferral := func(pr core.Prov) bool {
+				fs := p.MsgFields(pr, h)
+				return len(fs) == 1 && fs[0] == "Referral"
+			}
+			isSigner := func(pr core.Prov) bool { return p.OnlyMsgField(pr, h, "Creator") }
+			distinct := func(ca *core.CondAtom, truth bool) bool {
+				if truth {
+					return false
+				}
+				var a, b ssa.Value
+				switch {
+				case ca.Kind == "eq":
+					a, b = ca.X, ca.Y
+				case ca.Kind == "callbool" && ca.Call != nil && len(p.Callees(ca.Call)) == 0 && strings.HasSuffix(core.CalleeFullName(ca.Call), ".Equals") && len(ca.Call.Call.Args) == 2:
+					a, b = ca.Call.Call.Args[0], ca.Call.Call.Args[1]
+				default:
+					return false
+				}
+				pa, pb := p.ProvAt(a, "", ca.If), p.ProvAt(b, "", ca.If)
+				return (isReferral(pa) && isSigner(pb)) || (isReferral(pb) && isSigner(pa))
+			}
+			// the call that resolves msg.Referral into the payout recipient
+			resolvers := map[ssa.CallInstruction]bool{}
+			for _, a := range p.ProvAt(s.bo.Args[1], "", s.bo.Instr) {
+				if a.Kind == "ext" && a.Call != nil {
+					resolvers[a.Call] = true
+				}
+			}
+			resolved := errNilGuard(p, func(c *ssa.Call) bool {
+				if !resolvers[c] {
+					return false
+				}
+				for _, a := range c.Call.Args {
+					if isReferral(p.ProvAt(a, "", c)) && !isCtxArg(a) {
+						return true
+					}
+				}
+				return false
+			})
+			u1 := p.FindUnguarded(fn, []*core.Effect{eff}, anyOf(distinct, p.FlagImplies(fn, distinct)), false)
+			r.Check(len(u1) == 0, "C04/R6", sp.key+":referrer-distinct-from-signer", p.InstrPos(s.bo.Instr), "referrer payout only behind Eq(resolved msg.Referral, signer)=false", "the referral commission (and discount) can be paid when the referrer is not established to be distinct from the paying signer — a payer can refer itself")
+			u2 := p.FindUnguarded(fn, []*core.Effect{eff}, anyOf(resolved, p.FlagImplies(fn, resolved)), false)
+			r.Check(len(u2) == 0, "C04/R6", sp.key+":referrer-resolved", p.InstrPos(s.bo.Instr), "referrer payout only behind ErrNil(resolve msg.Referral)", "the referral commission can be paid to an unresolved referrer")
+			// the fee-collector payout is the complementary branch: not behind the same flag=true
+		}
 	}
+}
+
+func isCtxArg(v ssa.Value) bool {
+	s := v.Type().String()
+	return strings.HasSuffix(s, "types.Context") || s == "context.Context"
 }
